@@ -1313,10 +1313,22 @@ def order_pair(rng):
                      [["e", ["in", ["f", ["b"]], [["c", x] for x in sorted(r.sample(range(bmax + 1), r.randint(1, 2)))]]]]]]
         return [["e", ["b", "<=", ["b", "+", ["f", ["a"]], ["f", ["b"]]], ["u", bmax, wb + 1]]]]
     progs = []
+    vary = "bc" if (chain and r.random() < 0.6) else "ab"
+    shared_ab = coupling()
+
+    def bc_coupling():
+        k = r.choice(["rel", "imp", "ifeq"])
+        if k == "rel":
+            return [["e", ["b", r.choice(["<=", "!=", ">=", "<"]), ["f", ["c"]], ["f", ["b"]]]]]
+        if k == "imp":
+            return [["imp", ["b", "!=", ["f", ["c"]], ["c", 0]], [["e", ["b", "!=", ["f", ["b"]], ["c", r.randint(0, bmax)]]]]]]
+        return [["if", [[["b", "==", ["f", ["b"]], ["c", r.randint(0, bmax)]], [["e", ["b", "==", ["f", ["c"]], ["c", r.randint(0, 3)]]]]]], None]]
     for which in range(2):
-        st = [copy.deepcopy(s) for s in own] + coupling()
+        st = [copy.deepcopy(s) for s in own] + (copy.deepcopy(shared_ab) if vary == "bc" else coupling())
         if chain:
-            st += [["e", ["b", r.choice(["<=", "!=", ">="]), ["f", ["c"]], ["f", ["b"]]]]]
+            bc = bc_coupling()
+            # the statements may mention later chain members before their predecessors
+            st = (bc + st) if r.random() < 0.5 else (st + bc)
         order = []
         if extra_a and r.random() < 0.5:
             order.append(["so", [["a"], ["x"]], [["b"]]])
@@ -1325,5 +1337,6 @@ def order_pair(rng):
         if chain:
             order.append(["so", [["b"]], [["c"]]])
         blocks = [{"n": "c0", "st": st + order}] if r.random() < 0.6 else [{"n": "c0", "st": st}, {"n": "ord", "st": order}]
-        progs.append({"enums": {}, "classes": {"C0": {"base": None, "fields": copy.deepcopy(fields), "blocks": blocks}}, "top": "C0"})
+        progs.append({"enums": {}, "classes": {"C0": {"base": None, "fields": copy.deepcopy(fields), "blocks": blocks}}, "top": "C0",
+                      "vary": vary})
     return progs
